@@ -5,3 +5,4 @@ pub mod entropy;
 pub mod headers;
 pub mod modular;
 pub mod frame;
+pub mod model;
